@@ -187,6 +187,12 @@ impl Monitor for Mon {
             if *sender == w.owner {
                 out.count("shutdown_calls");
                 let reg: Vec<usize> = (0..w.vamms.len()).filter(|i| s.pre.v[*i].registered).collect();
+                // the clause presupposes properly wired vAMMs: a registered vAMM whose own insurance-fund setting points elsewhere
+                // cannot be closed by the fund (its owner unplugged it), and the fund's call then fails as a whole
+                if reg.iter().any(|i| s.pre.v[*i].cfg.insurance_fund != w.fund) {
+                    out.count("shutdown_with_a_rewired_vamm_unasserted");
+                    return None;
+                }
                 let closed_before = reg.iter().filter(|i| !s.pre.v[**i].state.open).count();
                 if closed_before > 0 && closed_before < reg.len() {
                     self.interesting += 1;
@@ -231,6 +237,8 @@ pub fn prop() -> HistProp {
     w.alien = 2;
     w.squeeze = 5;
     w.liq_weakest = 8;
+    // a vAMM owner may point the vAMM's insurance-fund setting at a foreign registry that lists it too
+    w.rewire = 4;
     HistProp {
         id: "C14",
         level: "exploration",
